@@ -5,6 +5,15 @@
 (* labels, and their lower-case forms) so that the exhaustive model        *)
 (* (ClientID.tla) and trace validation (TraceClientID.tla) share one text. *)
 (***************************************************************************)
+(***************************************************************************)
+(* HISTORY INDEPENDENCE.  Extract is a function of the request and of the  *)
+(* CURRENT configuration (server name, strict flag) only: nothing a server *)
+(* has seen before -- earlier requests, earlier configurations, earlier    *)
+(* request identifiers -- may influence it.  The conformance harness        *)
+(* therefore replays every vector on ONE long-lived server that is really  *)
+(* reconfigured between configurations, in several seeded orders, with     *)
+(* request identifiers that collide in their low 32 bits.                  *)
+(***************************************************************************)
 EXTENDS Sequences, Naturals, FiniteSets
 
 CONSTANTS ValidLabels,   \* set of label strings that are valid host-name labels
